@@ -89,9 +89,11 @@ def scenario(rng, kind):
                 from .. import vloop as _vl
                 sc.ev.append({"k": "down", "t": ms(s.loop.time()), "_n": next(_vl.SEQ)})
             proto.connection_lost = lost
-        if not kind.startswith("gate"):
+        if not kind.startswith("gate") and kind != "overlap":
             net.s2c = s2c
         n_calls = rng.choice([1, 2, 3, 5, 8]) if kind != "active-lossy" else 1
+        if kind == "overlap":
+            n_calls = rng.choice([1, 2, 3])
         if kind == "down":
             n_calls = rng.choice([2, 3, 5, 8])
             s.loop.call_later(rng.choice([0.0, 0.12, 0.3]) * n_calls, sc.tr.close)
@@ -123,10 +125,25 @@ def scenario(rng, kind):
             s.advance(5)
         else:
             t_end = 0
+            if kind == "overlap":
+                # the calls arrive while the refresh loop's status-block request is in flight: that loop issues its
+                # next request (channel) in the very iteration in which it releases the lock - behind the callers
+                # that were already waiting, not ahead of them
+                from ..sessions import inner as _inner
+                n0 = len(sc.tr.sent)
+                t0 = s.loop.time()
+
+                def seen():
+                    return any(by == "SPA:Refresh loop" and (_inner(d) or b"").startswith(b"STATU")
+                               for (_, d, _), by in zip(sc.tr.sent[n0:], sc.tr.sent_by[n0:]))
+                while not seen() and s.loop.time() - t0 < 600:
+                    s.advance(0.02)
+                overlap_ok = seen()
+                net.s2c = s2c            # (faults only from here on: a lossy wait would end in a reconnection)
             for i in range(n_calls):
                 name, api = rng.choice(sc.apis())
                 sc.start_call(api, gated=True)
-                s.advance(rng.choice([0, 0, 0.05, 0.13, 0.5, 2.0]))
+                s.advance(0 if kind == "overlap" else rng.choice([0, 0, 0.05, 0.13, 0.5, 2.0]))
             # let every call finish (worst case R x (T + P))
             c = consts()
             # every call completes: the explicit calls queue behind each other AND behind the background callers
@@ -138,8 +155,17 @@ def scenario(rng, kind):
                 s.advance(0.5)
         sc._stop_chat = True
         pending = [t.get_name() for t in sc.tasks if not t.done()]
+        # the background callers (ping loop, refresh loop, facade update) are callers of the engine too: a loop that
+        # ended with an exception has neither a reply nor a failure
+        died = []
+        for t in s.loop.tasks:
+            if t.get_name() in ("SPA:Ping loop", "SPA:Refresh loop", "FACADE:Facade update") and t.done() and not t.cancelled():
+                exc = t.exception()
+                if exc is not None:
+                    died.append({"task": t.get_name(), "exc": type(exc).__name__, "msg": str(exc)[:120]})
         ev = merge(sc)
-        return {"ev": ev, "kind": kind, "pending": pending, "ncalls": n_calls, "consts": live}
+        return {"ev": ev, "kind": kind, "pending": pending, "ncalls": n_calls, "consts": live,
+                "overlap_ok": bool(locals().get("overlap_ok", False)), "died": died}
     finally:
         for t in sc.tasks:
             if not t.done():
@@ -168,7 +194,7 @@ def run(ctx):
     logs = []
     n = 24 if ctx.quick else 400
     for i in range(n):
-        kind = "down" if i % 8 == 4 else "gate" if i % 8 == 7 else "gate-active" if i % 8 == 3 else "chatter" if i % 8 == 5 else "stall" if i % 8 == 1 else "active-lossy" if i % 8 == 6 else "calls"
+        kind = "overlap" if i % 8 == 2 else "down" if i % 8 == 4 else "gate" if i % 8 == 7 else "gate-active" if i % 8 == 3 else "chatter" if i % 8 == 5 else "stall" if i % 8 == 1 else "active-lossy" if i % 8 == 6 else "calls"
         logs.append(scenario(rng, kind))
     # logs are validated against the configuration that was in force while they ran
     groups = {}
@@ -182,6 +208,9 @@ def run(ctx):
     for lg, v in pairs_:
         if lg["pending"]:
             ctx.violation({"clause": "call-never-returned"}, {"pending": lg["pending"], "tail": lg["ev"][-12:]})
+        for dd in lg["died"]:
+            ctx.violation({"clause": "background-caller-ended-with-an-exception", "task": dd["task"], "exc": dd["exc"]},
+                          {"scenario": lg["kind"], **dd})
         key = tuple((e["k"], e.get("c"), e.get("verb"), e.get("result")) for e in lg["ev"] if e["k"] in ("call", "send", "ret"))
         if lg["ncalls"] >= 2:
             nontriv.add(key)
@@ -204,7 +233,10 @@ def run(ctx):
                 elif e["k"] == "down":
                     nd += len(active)
     ev.cov["calls_in_progress_at_transport_loss"] = nd
-    if not nd:
+    ev.cov["overlap_scenarios_with_a_refresh_in_flight"] = sum(1 for lg in logs if lg["overlap_ok"])
+    if not ev.cov["overlap_scenarios_with_a_refresh_in_flight"] and not ctx.new:
+        raise env.MachineryError("no overlap scenario saw a periodic refresh")
+    if not nd and not ctx.new:
         raise env.MachineryError("no call was in progress when the transport was lost")
     ev.cov["evaluations"] = sum(len(l["ev"]) for l in logs)
     ev.cov["distinct_nontrivial"] = len(nontriv)
